@@ -79,6 +79,12 @@ func runSolver(ctx context.Context, sp solverSpec, file string, timeoutS int) so
 		}
 	default:
 		r.status = "unknown"
+		// a candidate model may still be available (cvc5 after "unknown")
+		if first == "unknown" {
+			if i := strings.IndexByte(text, '\n'); i >= 0 && strings.HasPrefix(strings.TrimSpace(text[i+1:]), "((") {
+				r.model = text[i+1:]
+			}
+		}
 	}
 	return r
 }
@@ -94,12 +100,16 @@ func portfolio(file string, timeoutS int, which []solverSpec) solveResult {
 	}
 	var last solveResult
 	var outs []string
+	cand := ""
 	for range which {
 		r := <-ch
 		if r.status == "unsat" || r.status == "sat" {
 			return r
 		}
 		outs = append(outs, r.solver+": "+firstLine(r.output))
+		if r.model != "" {
+			cand = r.model
+		}
 		if r.seconds > last.seconds {
 			last = r
 		}
@@ -107,6 +117,7 @@ func portfolio(file string, timeoutS int, which []solverSpec) solveResult {
 	last.status = "unknown"
 	last.solver = "all"
 	last.output = strings.Join(outs, " | ")
+	last.model = cand // candidate model of an inconclusive answer (replay decides)
 	return last
 }
 
